@@ -95,6 +95,19 @@ def r1(ctx, facts):
             ctx.ob("C11-R1", "%s: %s() is computed per instantiation (no function-local static)" % (st, nm), not hit, body.loc(),
                    "" if not hit else "the declaration goes through a static item of %s: in a generic impl one static is shared by every component type, "
                    "so all storages declare the resources of whichever type asked first" % hit)
+        # a declaration is unconditional: every ResourceId::new of reads()/writes() lies on every path to return (a borrow that is declared
+        # only `if size_of::<T>() != 0`, only for some storage kinds .. is an undeclared borrow for the others); likewise every borrow of fetch()
+        for nm, body in (("reads", r), ("writes", w), ("fetch", f)):
+            cond = []
+            for bb, t in body.real_calls():
+                pth = t["callee"].get("path", "")
+                if pth == "shred::ResourceId::new" or (nm == "fetch" and pth in ("shred::World::fetch", "shred::World::fetch_mut")):
+                    okp, wit = body.must_pass(0, [bb])
+                    if not okp:
+                        cond.append("%s at %s (bypassed by %s)" % ((t["callee"].get("substs") or ["?"])[0], body.loc(bb), body.fmt_path(wit)))
+            ctx.ob("C11-R1", "%s: %s() declares / borrows unconditionally" % (st, nm), not cond, body.loc(),
+                   "" if not cond else "conditional: %s - for the inputs that skip it the declaration and the borrow disagree, so the dispatcher can overlap this "
+                   "system with a writer of a storage it reads" % "; ".join(cond[:3]))
         ok = not (set(sh) & set(ex))
         ctx.ob("C11-R1", "%s: no resource is borrowed both ways" % st, ok, f.loc(), "" if ok else "fetch() borrows %s both shared and exclusively" % sorted(set(sh) & set(ex)))
         # R2
